@@ -186,3 +186,5 @@ m("enc-odl-set-scalar-restriction-dropped", ["C12"], "pvl/encoder.py",
 m("enc-pds-default-symbol-double-quoted", ["C12"], "pvl/encoder.py",
   "        symbol_single_quote=True,\n        time_trailing_z=True,\n    ):",
   "        symbol_single_quote=False,\n        time_trailing_z=True,\n    ):")
+m("enc-pds-count-aggs-ignores-custom-group-class", ["C12"], "pvl/encoder.py",
+  "                if isinstance(v, self.grpcls):\n", "                if isinstance(v, PVLGroup):\n")
